@@ -14,28 +14,47 @@ pub fn use_def(
 
     for location in rd.keys() {
         let defs = match location.function_location().apply(function).unwrap() {
-            il::RefFunctionLocation::Instruction(_, instruction) => instruction
-                .operation()
-                .scalars_read()
-                .into_iter()
-                .fold(LocationSet::new(), |mut defs, scalar_read| {
-                    rd[location].locations().iter().for_each(|rd| {
-                        rd.function_location()
-                            .apply(function)
-                            .unwrap()
-                            .instruction()
-                            .unwrap()
-                            .operation()
-                            .scalars_written()
-                            .into_iter()
-                            .for_each(|scalar_written| {
-                                if scalar_written == scalar_read {
-                                    defs.insert(rd.clone());
-                                }
-                            })
-                    });
-                    defs
-                }),
+            il::RefFunctionLocation::Instruction(_, instruction) => {
+                // The definitions an instruction sees are those leaving its
+                // predecessors; rd[location] already has this instruction's
+                // own writes applied.
+                let ref_location = il::RefProgramLocation::new(
+                    function,
+                    location.function_location().apply(function)?,
+                );
+                let mut reaching = LocationSet::new();
+                for predecessor in ref_location.backward()? {
+                    if let Some(predecessor_rd) = rd.get(&predecessor.into()) {
+                        for rd in predecessor_rd.locations() {
+                            reaching.insert(rd.clone());
+                        }
+                    }
+                }
+                instruction
+                    .operation()
+                    .scalars_read()
+                    .into_iter()
+                    .flatten()
+                    .fold(LocationSet::new(), |mut defs, scalar_read| {
+                        reaching.locations().iter().for_each(|rd| {
+                            rd.function_location()
+                                .apply(function)
+                                .unwrap()
+                                .instruction()
+                                .unwrap()
+                                .operation()
+                                .scalars_written()
+                                .into_iter()
+                                .flatten()
+                                .for_each(|scalar_written| {
+                                    if scalar_written == scalar_read {
+                                        defs.insert(rd.clone());
+                                    }
+                                })
+                        });
+                        defs
+                    })
+            }
             il::RefFunctionLocation::Edge(edge) => edge
                 .condition()
                 .map(|condition| {
